@@ -159,9 +159,13 @@ func harnesses(r *fw.Run) []fw.HarnessSpec {
 	now := time.Unix(1_700_000_000, 0)
 	domains := []string{"example.com", "", "a", strings.Repeat("d", 255), "пример.рф"}
 
-	add("proofs", 1, func(c *enum.Ctx) {
+	add("proofs", r.Pick(1, 2), func(c *enum.Ctx) {
 		ver := versions[c.ChooseFree(len(versions))]
-		ki := []int{0, 3}[c.ChooseFree(2)]
+		keySeeds := []int{0, 3}
+		if !r.Quick() {
+			keySeeds = []int{0, 3, 1, 2, 4, 5, 6, 7}
+		}
+		ki := keySeeds[c.ChooseFree(len(keySeeds))]
 		execMode := c.ChooseFree(4)
 		domain := domains[c.Choose(len(domains))]
 		tsOff := []int64{0, -life, -life + 1, -life - 1, -10}[c.Choose(5)]
